@@ -5,22 +5,34 @@
 cd /verif/harness/fuzz || exit 2
 export CARGO_NET_OFFLINE=true
 [ -f Cargo.lock ] || cp /repo/Cargo.lock .
-RUNS=${VERIF_FUZZ_RUNS:-300000}
+RUNS=${VERIF_FUZZ_RUNS:-400000}
 SEED=${VERIF_SEED:-1}; [ "$SEED" = "0" ] && SEED=1
 BIN=/verif/harness/target/release/swiftmt-check
 rc=0; total=0; summary=""
-for t in fz_message fz_field fz_header fz_json; do
-  if ! cargo +nightly fuzz build $t >/tmp/verif-fuzz-build.log 2>&1; then
-    echo "FUZZ-BUILD-FAILED $t (inconclusive)" >&2; tail -20 /tmp/verif-fuzz-build.log >&2; exit 2
-  fi
+TARGETS="fz_message fz_field fz_header fz_json"
+# -O: optimised, no debug assertions (the library prints debug lines to stderr with them on)
+if ! cargo +nightly fuzz build -O >/verif/harness/fuzz/build.log 2>&1; then
+  echo "FUZZ-BUILD-FAILED (inconclusive)" >&2; tail -20 /verif/harness/fuzz/build.log >&2; exit 2
+fi
+for t in $TARGETS; do
   mkdir -p corpus/$t artifacts/$t
   # seed corpus: a few valid inputs produced by the harness generators (committed under seeds/)
   [ -d seeds/$t ] && cp -n seeds/$t/* corpus/$t/ 2>/dev/null
   rm -f artifacts/$t/*
-  out=$(cargo +nightly fuzz run $t -- -runs=$RUNS -seed=$SEED -len_control=0 -max_len=2048 -print_final_stats=1 2>&1 | grep -v '^DEBUG')
-  execs=$(echo "$out" | grep -o 'stat::number_of_executed_units: [0-9]*' | grep -o '[0-9]*$')
-  total=$((total + ${execs:-0}))
-  summary="$summary $t=${execs:-0}"
+  # four workers per target, each a libFuzzer process with its own seed, sharing the corpus directory
+  for w in 1 2 3 4; do
+    cargo +nightly fuzz run -O $t -- -runs=$((RUNS / 4)) -seed=$((SEED * 4 + w)) -len_control=0 -max_len=2048 -print_final_stats=1 >run.$t.$w.log 2>&1 &
+  done
+done
+wait
+for t in $TARGETS; do
+  execs=0
+  for w in 1 2 3 4; do
+    e=$(grep -a -o 'stat::number_of_executed_units: [0-9]*' run.$t.$w.log | grep -o '[0-9]*$' | tail -1)
+    execs=$((execs + ${e:-0}))
+  done
+  total=$((total + execs))
+  summary="$summary $t=$execs"
   for a in artifacts/$t/crash-* artifacts/$t/oom-* artifacts/$t/timeout-*; do
     [ -f "$a" ] || continue
     case "$a" in *oom-*|*timeout-*) echo "fuzz $t: $a (resource limit: inconclusive, not a violation)" >&2; [ $rc -eq 0 ] && rc=2; continue;; esac
@@ -30,6 +42,7 @@ for t in fz_message fz_field fz_header fz_json; do
     if $BIN C07 --replay "$r" | grep '^VIOLATION'; then rc=1; else echo "fuzz $t: artifact $a did not reproduce in the deterministic harness (ignored)" >&2; fi
   done
 done
+if [ "$total" -eq 0 ]; then echo "FUZZ: no executions recorded (inconclusive)" >&2; [ $rc -eq 0 ] && rc=2; fi
 echo "FUZZ-SUMMARY property=C07 executions=$total ($summary ) runs_per_target=$RUNS seed=$SEED"
 # record the campaign in the evidence file
 E=/verif/evidence/C07.json
